@@ -18,6 +18,7 @@ package zipslicer
 
 import (
 	"bytes"
+	"fmt"
 	"time"
 
 	"github.com/sassoftware/relic/v8/lib/binpatch"
@@ -43,16 +44,26 @@ func (d *Directory) Mangle(callback MangleFunc) (*Mangler, error) {
 		indir:  d.DirLoc,
 		insize: d.Size,
 	}
+	var pos int64
 	for _, f := range d.File {
 		mf := &MangleFile{File: *f, m: m}
+		// The rewritten directory places every kept member right after the
+		// previous one, starting at offset 0, while the patch leaves the
+		// bytes where they are: that is only right if the members are
+		// contiguous. Refuse anything else (leading stub, gaps) instead of
+		// writing a directory that points into the wrong place.
+		size, err := mf.GetTotalSize()
+		if err != nil {
+			return nil, err
+		}
+		if int64(mf.Offset) != pos {
+			return nil, fmt.Errorf("zip member %q is at offset %d but %d was expected: archives with leading or embedded non-archive data cannot be rewritten", mf.Name, mf.Offset, pos)
+		}
+		pos += size
 		if err := callback(mf); err != nil {
 			return nil, err
 		}
 		if mf.deleted {
-			size, err := mf.GetTotalSize()
-			if err != nil {
-				return nil, err
-			}
 			m.patch.Add(int64(mf.Offset), size, nil)
 		} else {
 			if _, err := m.outz.AddFile(&mf.File); err != nil {
